@@ -167,6 +167,8 @@ def run_property(prop, tier='quick', seed=0, out=sys.stdout):
         if r['verdict'] == 'unsat':
             discharged += 1
             by_solver[r['solver']] = by_solver.get(r['solver'], 0) + 1
+        elif r['verdict'] == 'disagree':
+            errors.append(f"solver disagreement on {o['name']}: {r['solver']}")
         elif r['verdict'] in ('sat', 'candidate'):
             violated.append(o)
         else:
@@ -261,6 +263,23 @@ def run_property(prop, tier='quick', seed=0, out=sys.stdout):
         print(f"UNDECIDED property={prop} {u}", file=out)
     for e in errors:
         print(f"CHECKER-ERROR property={prop} {e}", file=out)
+    # thorough tier: the bounded simulation monitor is run for the property in any case (labelled bounded, not counted as proof)
+    thorough_bounded = None
+    if tier == 'thorough' and os.environ.get('PYVC_NO_SIMMON') != '1':
+        path = os.path.join(rdir, f'thorough_simulations_{prop}.json')
+        json.dump(dict(property=prop, obligation=f"bounded-simulations property={prop}", function='__simmon__', source=None,
+                       counterexamples=[dict(path=0, where=None, solver='bounded', model={}, solver_log=[])], replayed=False),
+                  open(path, 'w'), indent=1)
+        ok, note = try_replay(path)
+        try:
+            rr = json.load(open(path)).get('replay_runs', [{}])[-1]
+        except Exception:
+            rr = {}
+        thorough_bounded = dict(kind='bounded simulation monitor (never counted as discharged)', scope=rr.get('scope'),
+                                failures=rr.get('failures'), observed=rr.get('observed'))
+        if ok:
+            print(f"VIOLATION property={prop} replay={path} obligation=bounded-simulations (thorough tier: a failing run of the real code)", file=out)
+            new_violations = new_violations + [(f"bounded-simulations:{prop}", [])]
     nobl = len(allobs)
     kf_names = set(k.get('obligation') for k in known if k.get('status', 'open') == 'open')
     n_known_obl = sum(1 for o in allobs if o['name'] in kf_names and o['result']['verdict'] != 'unsat')
@@ -297,6 +316,7 @@ def run_property(prop, tier='quick', seed=0, out=sys.stdout):
             not_covered=PROPERTY_NOTES.get(prop, {}).get('not_covered', []),
             bounded=PROPERTY_NOTES.get(prop, {}).get('bounded', []),
             bounded_fallback=bounded_note,
+            thorough_bounded=thorough_bounded,
         ),
         assumptions=TRUSTED_BASE + PROPERTY_NOTES.get(prop, {}).get('assumptions', []),
         wall_s=round(time.time() - t_start, 2),
